@@ -33,9 +33,10 @@ def main():
             rc, out = sh("go test -vet=off -count=1 -timeout 10m ./...", wt); log.append(("existing suite with patch (2nd try)", rc))
             if rc: raise SystemExit("existing suite fails with patch: " + out[-2000:])
         shutil.copy(demo, os.path.join(wt, "zz_seeded_demo_test.go"))
-        rc1, out1 = sh("go test -vet=off -count=1 -timeout 5m -run 'TestSeeded' .", wt); log.append(("demo with patch (must fail)", rc1))
+        race = "-race " if (meta.get("property") == "C16" or os.environ.get("SEED_RACE")) else ""
+        rc1, out1 = sh("go test " + race + "-vet=off -count=1 -timeout 5m -run 'TestSeeded' .", wt); log.append(("demo with patch (must fail)", rc1))
         sh(["git", "apply", "-R", patch], wt)
-        rc2, out2 = sh("go test -vet=off -count=1 -timeout 5m -run 'TestSeeded' .", wt); log.append(("demo without patch (must pass)", rc2))
+        rc2, out2 = sh("go test " + race + "-vet=off -count=1 -timeout 5m -run 'TestSeeded' .", wt); log.append(("demo without patch (must pass)", rc2))
         if rc1 == 0: raise SystemExit("demo does not fail with the patch")
         if rc2 != 0: raise SystemExit("demo fails without the patch: " + out2[-1500:])
         dst = os.path.join(VERIF, "seeded", sid)
